@@ -195,7 +195,7 @@ class NativeUnit(Unit):
 
 def sweep(name, cases, check, kind="bounded", bound="", describe=repr, function=None, props=None, max_fail=1, unit=None):
     """Run `check(case)` over `cases`; returns one Result (PASSED with the count, or FAILED with the first failing case)."""
-    t0 = time.time(); n = 0
+    t0 = time.time(); n = 0; first_bad = None
     for c in cases:
         n += 1
         try:
@@ -205,10 +205,18 @@ def sweep(name, cases, check, kind="bounded", bound="", describe=repr, function=
             # (the sweep passes), so it is a change of behaviour of the code under test, reported with the case that shows it
             import traceback as _tb
             bad = {"expected": "the calls of the oracle complete (as they do on the unchanged tree)", "observed": "%s: %s  [%s]" % (type(e).__name__, str(e)[:200], " <- ".join(l.strip() for l in _tb.format_exc().strip().splitlines()[-4:-1])[:300])}
+        if bad and os.environ.get("VF_SWEEP_ALL") and not bad.get("finding"):      # debugging aid: log every failing case of a sweep to the named file; the verdict is unchanged
+            with open(os.environ["VF_SWEEP_ALL"], "a") as _f: _f.write("SWEEP-FAIL %s: %s -> %s\n" % (name, describe(c), bad))
+            if first_bad is None: first_bad = (c, bad, n)
+            continue
         if bad:
             rec = {"unit": unit, "obligation": name, "verdict": "confirmed", "input": describe(c), "expected": bad.get("expected"), "observed": bad.get("observed"), "model": None}
             return Result(name, kind, FAILED, "native", time.time() - t0, function, detail=("%s -> %s" % (describe(c), bad))[:800], replay=rec, props=props, bound=bound, cases=n,
                           finding=bad.get("finding"))
+    if first_bad is not None:
+        c, bad, n1 = first_bad
+        rec = {"unit": unit, "obligation": name, "verdict": "confirmed", "input": describe(c), "expected": bad.get("expected"), "observed": bad.get("observed"), "model": None}
+        return Result(name, kind, FAILED, "native", time.time() - t0, function, detail=("%s -> %s" % (describe(c), bad))[:800], replay=rec, props=props, bound=bound, cases=n1, finding=bad.get("finding"))
     if n == 0:
         return Result(name, kind, ERROR, "native", time.time() - t0, function, detail="no case generated", props=props, bound=bound)
     return Result(name, kind, PASSED, "native", time.time() - t0, function, props=props, bound=bound, cases=n)
